@@ -1418,10 +1418,18 @@ impl<Target: Composer> AdditionalBuilder<Target> {
             &mut OptBuilder<'_, Target>,
         ) -> Result<(), Target::AppendError>,
     {
-        self.authority.answer.builder.push(
+        // The closure may change the header's RCODE through
+        // `OptBuilder::set_rcode`. If the record cannot be added after all,
+        // that change has to be undone together with the record.
+        let rcode = self.authority.answer.builder.header().rcode();
+        let res = self.authority.answer.builder.push(
             |target| OptBuilder::new(target)?.build(op),
             |counts| counts.inc_arcount(),
-        )
+        );
+        if res.is_err() {
+            self.authority.answer.builder.header_mut().set_rcode(rcode);
+        }
+        res
     }
 }
 
